@@ -206,11 +206,11 @@ def plan(tier, seed, with_dup=False):
         res = []
         for tags in ([], ["wip"]):
             for o in ("error", "pending"):
-                prog = {"features": [G.feature([G.scenario([o, "pass"]) for _ in range(6)], tags)], "family": "excclass"}
-                res.append((with_o2(prog), [G.cfg(), G.cfg(cont=True)], [[0, 0]]))
+                prog = {"features": [G.feature([G.scenario([o, "pass"]) for _ in range(7)], tags)], "family": "excclass"}
+                res.append((with_o2(prog), [G.cfg(), G.cfg(cont=True), G.cfg(async_steps=True, async_timeout=True), G.cfg(async_steps=True)], [[0, 0]]))
                 # ... and alone in the run (k passing steps first: one program per residue of the rotation), so that the
                 # run's verdict depends on this one step
-                for k in range(6):
+                for k in range(7):
                     prog = {"features": [G.feature([G.scenario(["pass"] * k + [o])], tags)], "family": "excclass"}
                     res.append((with_o2(prog), [G.cfg()], [[0, 0]]))
         return res
@@ -371,6 +371,20 @@ def plan(tier, seed, with_dup=False):
             fs.append([a, 0] if rnd.random() < 0.8 else [a, rnd.randint(1, nh)])
         return fs
 
+    def retry_programs():
+        """scenario_autoretry: the second attempt takes another course than the first one -- a step at an EARLIER position
+        skips the scenario, fails, is undefined-free ... : every step status is the one of the latest attempt"""
+        res = []
+        firsts = (["pass", "pass", "fail", "pass"], ["pass", "error", "pass"], ["pass", "pass", "pass", "fail"])
+        seconds = ("skip", "fail", "error", "pending", "skip_fail", "abort")
+        for f in firsts:
+            for at in range(len(f)):
+                for o2 in seconds:
+                    steps = [G.step(o, o2=(o2 if k == at else "pass")) for k, o in enumerate(f)]
+                    prog = {"features": [G.feature([G.scenario(steps), G.scenario(["pass"])], bg=["pass"] if at % 2 else None)], "family": "retry"}
+                    res.append((prog, [G.cfg(retry=True)], [[0, 0]]))
+        return res
+
     def dupstep_programs():
         """scenarios in which a step repeats the text of the step before it (Step objects that compare equal): every first
         non-passing position x outcome over 4 steps, + continue_after_failed_step, + second attempts"""
@@ -387,6 +401,7 @@ def plan(tier, seed, with_dup=False):
 
     if with_dup:
         out.extend(dupstep_programs())
+    out.extend(retry_programs())
     if quick:
         for p in G.family_scen(2):
             out.append((with_o2(p), [G.cfg(), rcfg()], rfaults(p, 2)))
@@ -452,7 +467,7 @@ def shared(chk, part="core"):
     """Run (or load) the shared stage for this tree / tier / seed.  Returns a dict:
        n_runs, tlc: [{module,cfg,distinct,generated,wall,coverage}], verdicts: {clause: [ {key, ...} ]},
        divergences, samples, design_violations"""
-    key = tree_key({"tier": chk.tier, "seed": chk.seed, "part": part, "v": 43})
+    key = tree_key({"tier": chk.tier, "seed": chk.seed, "part": part, "v": 44})
     os.makedirs(CACHE, exist_ok=True)
     # one entry per (part, tier, repository location): runs against a mutated copy must not evict /repo's entry
     prefix = "%s-%s-%s-" % (part, chk.tier, hashlib.sha256(REPO.encode()).hexdigest()[:8])
